@@ -33,7 +33,7 @@ CHECKS = {
         "text": "Proof, unbounded (Verus, nonlinear arithmetic): can_pack against its tail-fit oracle, and three lemmas over the split condition extracted verbatim from Mutations::send "
                 "(no message exceeds the size when each group fits; one message when everything fits; a chunk is never separated from an empty message). The same can_pack contract is cross-checked by Kani on the real function.",
         "design_ref": "DESIGN.md §4 U7, §5 C10",
-        "note": "Packing arithmetic only. Not covered: the loop in Mutations::send that applies the decision and assembles bytes (outside Verus' subset; Kani timeout), relationship-graph maintenance (petgraph), the client-side all-or-nothing effect.",
+        "note": "Packing arithmetic only (plus bounded native/Kani runs of the chunk bookkeeping, labelled bounded in the evidence). Not covered: the loop in Mutations::send that applies the decision and assembles bytes (outside Verus' subset; Kani timeout), relationship-graph maintenance (petgraph), the client-side all-or-nothing effect.",
         "technique": "contract-based deductive verification: Verus requires/ensures on verbatim can_pack and on the split condition extracted from the real send(); Kani contract harness for counterexamples",
     },
     "C11": {
